@@ -30,6 +30,7 @@
 #include <iostream>
 #include <vector>
 #include <algorithm>
+#include <functional>
 
 #include "constant.hh"
 #include "flag_saver.hh"
@@ -184,27 +185,33 @@ constant::operator< (constant that) const
   auto compare_magnitudes = [&] ()
     { return value () < that.value (); };
 
+  if (dom1 == nullptr || dom2 == nullptr)
+    {
+      if (dom1 == dom2)
+	// Both are nullptr.
+	return compare_magnitudes ();
+      return dom1 == nullptr;
+    }
+
+  // Arithmetic domains are interchangeable and their constants are ordered
+  // by value.  They sort before constants of named domains.
+  bool arith1 = dom1->safe_arith ();
+  bool arith2 = dom2->safe_arith ();
+  if (arith1 != arith2)
+    return arith1;
+  if (arith1)
+    return compare_magnitudes ();
+
+  // Maybe we can find a common sub-domain that covers them both.  Otherwise
+  // order the two constants by their domains.  The most enclosing domain has
+  // to be used on both sides also for the ordering, or else the relation is
+  // not transitive.
+  dom1 = dom1->most_enclosing (value ());
+  dom2 = dom2->most_enclosing (that.value ());
   if (dom1 == dom2)
-    // Both domains are the same.  Possibly both are nullptr.
-    return compare_magnitudes ();
-  if (dom1 == nullptr && dom2 != nullptr)
-    return true;
-  if (dom1 != nullptr && dom2 == nullptr)
-    return false;
-
-  if (// If both domains are arithmetic, we can directly compare the
-      // values.
-      (dom1->safe_arith () && dom2->safe_arith ())
-
-      // Maybe we can find a common sub-domain that covers them both.
-      // That has no effect for arithmetic domains, so we don't need
-      // to care if both are arithmetic or only one of them is.
-      || (dom1->most_enclosing (value ())
-	  == dom2->most_enclosing (that.value ())))
     return compare_magnitudes ();
 
-  // Otherwise order the two constants by their domains.
-  return dom1 < dom2;
+  return std::less <constant_dom const *> () (dom1, dom2);
 }
 
 bool
